@@ -19,7 +19,8 @@ def first_pass():
 def main():
     fp = first_pass()
     rows = []
-    for d in sorted((ROOT / "seeded").iterdir(), key=lambda x: (x.name[-1] in "34", x.name)):
+    rnd_of = lambda name: {"1": 1, "2": 1, "3": 2, "4": 2, "5": 3, "6": 3}.get(name[-1], 0)
+    for d in sorted((ROOT / "seeded").iterdir(), key=lambda x: (rnd_of(x.name), x.name)):
         if not (d / "meta.json").exists():
             continue
         meta = json.loads((d / "meta.json").read_text())
@@ -29,22 +30,25 @@ def main():
             now += " (no-failing-input-found)"
         first = {"detected": "caught", "MISSED": "missed"}.get(fp.get(d.name, ""), "")
         if not first:
-            first = "missed" if d.name == "C13_2" else "caught"      # group E of round 1 was run by hand before the log existed
+            first = "missed" if d.name in ("C13_2",) else "caught"      # group E of round 1 was run by hand before the log existed
         how = ""
         if r.get("first_broken"):
             how = "correspondence/proof: " + re.sub(r"\s+", " ", r["first_broken"][0])[:90]
         elif r.get("detected"):
             how = "oracle on the implementation"
         summ = re.sub(r"\s+", " ", meta.get("summary", ""))[:170].replace("|", "/")
-        rnd = "2" if d.name[-1] in "34" else "1"
+        rnd = str(rnd_of(d.name))
         rows.append(f"| {d.name} | {rnd} | {summ} | {first} | {now} | {how.replace('|', '/')} |")
     out = ["| seed | round | change | first run | now | caught by |", "|---|---|---|---|---|---|"] + rows
     n = len(rows)
     c = sum(1 for r in rows if r.split("|")[5].strip().startswith("caught"))
-    f1 = sum(1 for r in rows if r.split("|")[2].strip() == "1" and r.split("|")[4].strip() == "caught")
-    n1 = sum(1 for r in rows if r.split("|")[2].strip() == "1")
-    f2 = sum(1 for r in rows if r.split("|")[2].strip() == "2" and r.split("|")[4].strip() == "caught")
-    print(f"{n} seeded changes ({n1} in round 1, {n - n1} in round 2); caught at first run: {f1}/{n1} and {f2}/{n - n1}; caught now: {c}/{n}\n")
+    per = {}
+    for r in rows:
+        cells = [x.strip() for x in r.split("|")]
+        per.setdefault(cells[2], [0, 0])
+        per[cells[2]][1] += 1
+        per[cells[2]][0] += cells[4] == "caught"
+    print(f"{n} seeded changes; caught at first run: " + ", ".join(f"round {k}: {a}/{b}" for k, (a, b) in sorted(per.items())) + f"; caught now: {c}/{n}\n")
     print("\n".join(out))
 
 
